@@ -132,8 +132,11 @@ def merge(results):
 
 def classify(pid, violations, known):
     """Split violations into (unknown, {mech: (entry, count)})."""
-    open_by_mech = {k["mech"]: k for k in known
-                    if k["property"] == pid and k.get("status") == "open"}
+    open_by_mech = {}
+    for k in known:
+        if k["property"] == pid and k.get("status") == "open":
+            for mech in k.get("mechs", [k["mech"]] if "mech" in k else []):
+                open_by_mech[mech] = k
     unknown, seen = [], {}
     for v in violations:
         e = open_by_mech.get(v["mech"])
@@ -195,9 +198,12 @@ def do_check(pid, tier, seed, jobs):
     known = load_known()
     unknown, seen = classify(pid, m["violations"], known)
 
+    by_entry = {}
     for mech, (entry, cnt, v) in sorted(seen.items()):
-        print("KNOWN-FINDING: property=%s %s [mech=%s, %d case(s) this run]"
-              % (pid, entry["what"], mech, cnt))
+        by_entry.setdefault(id(entry), [entry, []])[1].append("%s x%d" % (mech, cnt))
+    for entry, mechs in by_entry.values():
+        print("KNOWN-FINDING: property=%s %s [observed this run: %s]"
+              % (pid, entry["what"], "; ".join(mechs)))
     vio_paths = []
     by_mech = {}
     for v in unknown:
